@@ -103,9 +103,21 @@ func extractKeyOrderFromScript(script []byte, expectedPubkeys [][]byte,
 	// For each pubkey in our pubsSigs slice, we'll now construct a proper
 	// positionMap entry, based on _where_ in the script the pubkey first
 	// appears.
+	// The position of a key is the offset of the data push that carries it
+	// (first one wins), not the first occurrence of its bytes anywhere in the
+	// script: a key can occur inside another key's push.
+	pushAt := make(map[string]int)
+	tokenizer := txscript.MakeScriptTokenizer(0, script)
+	for offset := 0; tokenizer.Next(); offset = int(tokenizer.ByteIndex()) {
+		if data := tokenizer.Data(); data != nil {
+			if _, seen := pushAt[string(data)]; !seen {
+				pushAt[string(data)] = offset
+			}
+		}
+	}
 	for _, p := range pubsSigs {
-		pos := bytes.Index(script, p.pubKey)
-		if pos < 0 {
+		pos, ok := pushAt[string(p.pubKey)]
+		if !ok {
 			return nil, fmt.Errorf("script does not contain pubkeys")
 		}
 
